@@ -5,6 +5,7 @@
    property theorems are proved about (the model's ghost results are dropped with then_ret).  A function rs2coq
    cannot translate becomes a value of type `unsupported`, on which these statements do not type-check. *)
 From IT.proofs Require Import SrcTac SrcStamp SrcAlloc.
+From IT Require Value.
 From IT.gen Require Import GenStamp GenAlloc.
 Open Scope mon_scope.
 
@@ -47,7 +48,27 @@ Proof.
   intros. repeat split; first [ reflexivity | apply src_pop_front_free_node | apply src_new_node | apply src_free_node | apply src_clear | apply src_get | apply src_get_node_id_at ].
 Qed.
 
+(* Arena::get_node_id, pointer arithmetic included.  The Vec's buffer is [length (nodes a)] slots of [size] bytes
+   starting at [base]; the `&Node<T>` argument is an address.  The address of slot k resolves to the id of slot k
+   (the model's InBuffer k), an interior address to the slot that contains it, and any address outside the buffer
+   (a node of another arena or of a clone) to None (the model's Elsewhere). *)
+Theorem SRC_get_node_id : forall dbg base size a,
+  (0 < size)%Z ->
+  (forall k, (k < length (nodes a))%nat ->
+     g_Arena_get_node_id dbg base size (base + Z.of_nat k * size) a = (a, Ok (Value.get_node_id a (Value.InBuffer k)))) /\
+  (forall p, (base <= p)%Z -> (p < base + Z.of_nat (length (nodes a)) * size)%Z ->
+     g_Arena_get_node_id dbg base size p a = (a, Ok (Value.get_node_id a (Value.InBuffer (Z.to_nat ((p - base) / size)))))) /\
+  (forall p, (p < base \/ base + Z.of_nat (length (nodes a)) * size <= p)%Z ->
+     g_Arena_get_node_id dbg base size p a = (a, Ok (Value.get_node_id a Value.Elsewhere))).
+Proof.
+  intros dbg base size a Hs. repeat split; intros.
+  - apply src_get_node_id_slot; assumption.
+  - apply src_get_node_id_inside; assumption.
+  - apply src_get_node_id_outside; assumption.
+Qed.
+
 Print Assumptions SRC_stamp.
 Print Assumptions SRC_node.
 Print Assumptions SRC_id.
 Print Assumptions SRC_arena.
+Print Assumptions SRC_get_node_id.
